@@ -78,20 +78,153 @@ theorem rfBlock_solves (e : ColEnv α) (hz : ∀ x, e.isZero x = true ↔ x = 0)
         obtain ⟨y, _, rfl⟩ := List.mem_map.1 hx
         exact hva _
 
-/-- `_solve_freq_rb` with `incrb = "dva"` at `Ω ≠ 0`: `−Ω² M[rb,rb] d = F[rb]`, `v = iΩd`,
-`a = −Ω²d` (`frfRb_solves` for the whole block), with the mass absent (`m = None`: identity),
-a vector (reciprocal) or a matrix (LU solve), and the mass rows taken from the constructor state. -/
+/-- `a_rb` of `_solve_freq_rb` after the damping step (`rbAccD`): it solves
+`(M − i Brb / Ω)[rb,rb] a = F[rb]` where `Ω ≠ 0` and `M[rb,rb] a = F[rb]` at `Ω = 0` (`Brb = e.rbDamping`:
+the diagonal damping of the rigid-body modes on the uncoupled path, zero on the coupled path), with the
+mass absent, a vector (reciprocal) or a matrix (LU solve) and the mass and damping rows taken from the
+constructor state. -/
+theorem rbAccD_solves (e : ColEnv α) (hz : ∀ x, e.isZero x = true ↔ x = 0)
+    (st : SuState) (uncReal : Bool)
+    (hmr : e.mNone = false → st.lay.rb ≠ [] → rbMassRows st uncReal = some st.lay.rb)
+    (hbr : e.unc = true → rbDampRows st uncReal = some st.lay.rb)
+    (hnd : st.lay.rb.Nodup) (hemp : st.lay.rb ≠ []) (F : Nat → α) (w : α)
+    (hmn : e.mNone = true → ∀ r ∈ st.lay.rb, ∀ c ∈ st.lay.rb, e.M r c = if r = c then 1 else 0)
+    (hdiag : e.unc = true →
+      (∀ r ∈ st.lay.rb, ∀ c ∈ st.lay.rb, r ≠ c → e.M r c = 0 ∧ e.B r c = 0) ∧
+      (∀ r ∈ st.lay.rb, e.M r r ≠ 0) ∧
+      (w ≠ 0 → ∀ r ∈ st.lay.rb, -(w * w) * e.M r r + e.i * w * e.B r r ≠ 0))
+    (arb : List α) (ha : rbAccD e st uncReal F w = .ok arb) :
+    arb.length = st.lay.rb.length ∧ ∀ r ∈ st.lay.rb,
+      blockSum (fun r c => e.M r c - (if e.isZero w = true then 0 else e.i * e.rbDamping r c / w))
+        st.lay.rb arb r = F r := by
+  unfold rbAccD at ha
+  cases ha0 : rbAcc e (rbMassRows st uncReal) st.lay.rb F with
+  | error m => rw [ha0] at ha; cases ha
+  | ok arb0 =>
+    rw [ha0] at ha
+    simp only at ha
+    by_cases hu : e.unc = true
+    · -- uncoupled: reciprocal masses, damped division
+      obtain ⟨hoff, hne, hden⟩ := hdiag hu
+      have harb0 : arb0 = st.lay.rb.map fun r => 1 / e.M r r * F r := by
+        unfold rbAcc at ha0
+        by_cases hm : e.mNone = true
+        · simp only [hm, if_true, Except.ok.injEq] at ha0
+          subst ha0
+          apply List.map_congr_left
+          intro r hr
+          rw [hmn hm r hr r hr]; simp
+        · have hm' : e.mNone = false := by simpa using hm
+          simp only [hm', Bool.false_eq_true, if_false, hmr hm' hemp, hu, if_true,
+            bne_self_eq_false, Except.ok.injEq] at ha0
+          subst ha0
+          rw [zip_self_map]
+      subst harb0
+      have hoffD : ∀ r ∈ st.lay.rb, ∀ c ∈ st.lay.rb, r ≠ c →
+          e.M r c - (if e.isZero w = true then 0 else e.i * e.rbDamping r c / w) = 0 := by
+        intro r hr c hc hne'
+        obtain ⟨h1, h2⟩ := hoff r hr c hc hne'
+        simp [ColEnv.rbDamping, hu, h1, h2]
+      rw [hbr hu] at ha
+      unfold rbDamp at ha
+      simp only [hu, Bool.not_true, Bool.false_eq_true, if_false] at ha
+      by_cases hall : (st.lay.rb.all fun r => e.isZero (e.B r r)) = true
+      · simp only [hall, if_true, Except.ok.injEq] at ha
+        subst ha
+        refine ⟨by simp, fun r hr => ?_⟩
+        rw [blockSum_diag _ st.lay.rb hnd _ hoffD r hr]
+        have hb0 : e.B r r = 0 := (hz _).1 (List.all_eq_true.1 hall r hr)
+        simp only [ColEnv.rbDamping, hu, if_true, hb0, mul_zero, zero_div, ite_self, sub_zero]
+        have := hne r hr
+        field_simp
+      · simp only [hall, Bool.false_eq_true, if_false] at ha
+        have him : rbIm e st.lay.rb (rbMassRows st uncReal) =
+            .ok (st.lay.rb.map fun r => 1 / e.M r r) := by
+          unfold rbIm
+          by_cases hm : e.mNone = true
+          · simp only [hm, if_true, Except.ok.injEq]
+            apply List.map_congr_left
+            intro r hr
+            rw [hmn hm r hr r hr]; simp
+          · have hm' : e.mNone = false := by simpa using hm
+            simp only [hm', Bool.false_eq_true, if_false, hmr hm' hemp]
+        rw [him] at ha
+        simp only [List.length_map, bne_self_eq_false, Bool.or_self, Bool.false_eq_true, if_false,
+          Except.ok.injEq] at ha
+        subst ha
+        rw [zipWith_self_map_right, zipWith_map_map_self]
+        refine ⟨by simp, fun r hr => ?_⟩
+        rw [blockSum_diag _ st.lay.rb hnd _ hoffD r hr]
+        have hm0 := hne r hr
+        cases hwz : e.isZero w with
+        | true =>
+          -- `Ω = 0`: the acceleration is left as it is
+          simp only [rbDampAcc, hwz, if_true, sub_zero]
+          field_simp
+        | false =>
+          have hw : w ≠ 0 := fun h0 => by
+            have := (hz w).2 h0
+            rw [hwz] at this; cases this
+          simp only [ColEnv.rbDamping, hu, if_true, rbDampAcc, hwz, Bool.false_eq_true, if_false]
+          have hq : 1 - e.i * (e.B r r * (1 / e.M r r)) / w ≠ 0 := by
+            intro h0
+            apply hden hw r hr
+            rw [← rbDamp_den e.i (e.M r r) (e.B r r) w hm0 hw, h0, zero_mul]
+          have hmw : e.M r r * w - e.i * e.B r r ≠ 0 := by
+            intro h0
+            apply hden hw r hr
+            rw [show -(w * w) * e.M r r + e.i * w * e.B r r = -w * (e.M r r * w - e.i * e.B r r) by ring,
+              h0, mul_zero]
+          rw [show e.M r r - e.i * e.B r r / w =
+            e.M r r * (1 - e.i * (e.B r r * (1 / e.M r r)) / w) by field_simp]
+          field_simp
+    · -- coupled: `a = M⁻¹ F` (LU solve, or `F` itself when `m = None`), no damping
+      have hu' : e.unc = false := by simpa using hu
+      have ha' : arb = arb0 := by
+        unfold rbDamp at ha
+        simp only [hu', Bool.not_false, if_true, Except.ok.injEq] at ha
+        exact ha.symm
+      subst ha'
+      have hM : arb.length = st.lay.rb.length ∧
+          ∀ r ∈ st.lay.rb, blockSum e.M st.lay.rb arb r = F r := by
+        unfold rbAcc at ha0
+        by_cases hm : e.mNone = true
+        · simp only [hm, if_true, Except.ok.injEq] at ha0
+          subst ha0
+          refine ⟨by simp, fun r hr => ?_⟩
+          rw [blockSum_diag e.M st.lay.rb hnd F
+            (fun r hr c hc hne => by rw [hmn hm r hr c hc, if_neg hne]) r hr, hmn hm r hr r hr]
+          simp
+        · have hm' : e.mNone = false := by simpa using hm
+          simp only [hm', Bool.false_eq_true, if_false, hmr hm' hemp, hu'] at ha0
+          exact blockEq_of_solveIdx e hz e.M st.lay.rb F arb ha0
+      refine ⟨hM.1, fun r hr => ?_⟩
+      rw [← hM.2 r hr]
+      apply blockSum_congr
+      intro c _
+      simp [ColEnv.rbDamping, hu']
+
+/-- `_solve_freq_rb` with `incrb = "dva"` at `Ω ≠ 0`: `(iΩ Brb − Ω² M)[rb,rb] d = F[rb]`, `v = iΩd`,
+`a = −Ω²d` (`frfRb_damped_solves` / `frfRb_solves` for the whole block), where `Brb = e.rbDamping` is
+the diagonal damping of the rigid-body modes on the uncoupled path (any values, `np.any(b_rb)` true or
+false; real and complex constructor path) and zero on the coupled path; with the mass absent
+(`m = None`: identity), a vector (reciprocal) or a matrix (LU solve), and the mass and damping rows
+taken from the constructor state. -/
 theorem rbBlock_solves (e : ColEnv α) (hz : ∀ x, e.isZero x = true ↔ x = 0)
     (st : SuState) (uncReal : Bool)
     (hmr : e.mNone = false → st.lay.rb ≠ [] → rbMassRows st uncReal = some st.lay.rb)
+    (hbr : e.unc = true → rbDampRows st uncReal = some st.lay.rb)
     (hnd : st.lay.rb.Nodup) (F : Nat → α) (w : α) (hw : w ≠ 0)
     (hinc : e.inc = Incrb.all)
     (hmn : e.mNone = true → ∀ r ∈ st.lay.rb, ∀ c ∈ st.lay.rb, e.M r c = if r = c then 1 else 0)
-    (hdiag : e.mNone = false → e.unc = true →
-      (∀ r ∈ st.lay.rb, ∀ c ∈ st.lay.rb, r ≠ c → e.M r c = 0) ∧ ∀ r ∈ st.lay.rb, e.M r r ≠ 0)
+    (hdiag : e.unc = true →
+      (∀ r ∈ st.lay.rb, ∀ c ∈ st.lay.rb, r ≠ c → e.M r c = 0 ∧ e.B r c = 0) ∧
+      (∀ r ∈ st.lay.rb, e.M r r ≠ 0) ∧
+      ∀ r ∈ st.lay.rb, -(w * w) * e.M r r + e.i * w * e.B r r ≠ 0)
     (vrb : List (Dva α)) (h : rbVals e st uncReal F w = .ok vrb) :
     vrb.length = st.lay.rb.length ∧
-    (∀ r ∈ st.lay.rb, blockSum (fun r c => -(w * w) * e.M r c) st.lay.rb (vrb.map (·.d)) r = F r) ∧
+    (∀ r ∈ st.lay.rb, blockSum (fun r c => e.i * e.rbDamping r c * w - e.M r c * (w * w)) st.lay.rb
+      (vrb.map (·.d)) r = F r) ∧
     ∀ x ∈ vrb, x.v = e.i * w * x.d ∧ x.a = -(w * w) * x.d := by
   unfold rbVals at h
   have hwz : e.isZero w = false := by
@@ -107,43 +240,24 @@ theorem rbBlock_solves (e : ColEnv α) (hz : ∀ x, e.isZero x = true ↔ x = 0)
       | nil => exact absurd hrb hemp
       | cons _ _ => rfl
     simp only [hemp', hinc, Incrb.all, Bool.or_self, Bool.not_true, Bool.false_eq_true, if_false] at h
-    cases ha : rbAcc e (rbMassRows st uncReal) st.lay.rb F with
+    cases ha : rbAccD e st uncReal F w with
     | error m => rw [ha] at h; cases h
     | ok arb =>
       rw [ha] at h
       simp only [Except.map, Except.ok.injEq] at h
       subst h
-      -- the acceleration solves `M[rb,rb] a = F[rb]`
-      have hacc : arb.length = st.lay.rb.length ∧ ∀ r ∈ st.lay.rb, blockSum e.M st.lay.rb arb r = F r := by
-        unfold rbAcc at ha
-        by_cases hm : e.mNone = true
-        · simp only [hm, if_true, Except.ok.injEq] at ha
-          subst ha
-          refine ⟨by simp, fun r hr => ?_⟩
-          rw [blockSum_diag e.M st.lay.rb hnd F
-            (fun r hr c hc hne => by rw [hmn hm r hr c hc, if_neg hne]) r hr, hmn hm r hr r hr]
-          simp
-        · have hm' : e.mNone = false := by simpa using hm
-          simp only [hm', Bool.false_eq_true, if_false, hmr hm' hemp] at ha
-          by_cases hu : e.unc = true
-          · simp only [hu, if_true, bne_self_eq_false, Bool.false_eq_true, if_false,
-              Except.ok.injEq] at ha
-            subst ha
-            obtain ⟨hoff, hne⟩ := hdiag hm' hu
-            rw [zip_self_map]
-            refine ⟨by simp, fun r hr => ?_⟩
-            rw [blockSum_diag e.M st.lay.rb hnd _ hoff r hr]
-            have := hne r hr
-            field_simp
-          · simp only [hu, Bool.false_eq_true, if_false] at ha
-            exact blockEq_of_solveIdx e hz e.M st.lay.rb F arb ha
+      have hacc := rbAccD_solves e hz st uncReal hmr hbr hnd hemp F w hmn
+        (fun hu => ⟨(hdiag hu).1, (hdiag hu).2.1, fun _ => (hdiag hu).2.2⟩) arb ha
+      simp only [hwz, Bool.false_eq_true, if_false] at hacc
       refine ⟨by simp [hacc.1], ?_, ?_⟩
       · intro r hr
         rw [List.map_map]
         have : ((fun x : Dva α => x.d) ∘ fun a => frfRb e.isZero e.i a w ⟨true, true, true⟩) =
             fun a => (-1 / (w * w)) * a := by
           funext a; simp [Function.comp, frfRb, hwz]
-        rw [this, blockSum_scale e.M st.lay.rb arb (-(w * w)) (-1 / (w * w)) r, hacc.2 r hr]
+        rw [this, blockSum_congr _ (fun r c => (-(w * w)) * (e.M r c - e.i * e.rbDamping r c / w))
+          st.lay.rb _ r (fun c _ => by field_simp; ring),
+          blockSum_scale _ st.lay.rb arb (-(w * w)) (-1 / (w * w)) r, hacc.2 r hr]
         field_simp
       · intro x hx
         obtain ⟨a, _, rfl⟩ := List.mem_map.1 hx
@@ -151,6 +265,54 @@ theorem rbBlock_solves (e : ColEnv α) (hz : ∀ x, e.isZero x = true ↔ x = 0)
         constructor
         · field_simp
         · field_simp
+
+/-- `_solve_freq_rb` with `incrb = "dva"` at **`Ω = 0`** (rigid-body modes with or without damping):
+`d = v = 0` on every rigid-body row and the accelerations solve `M[rb,rb] a = F[rb]` — the documented
+convention (`frfRbD_zero_freq` for the whole block; the dynamic-stiffness equation itself has no
+solution there: `frfRb_zero_freq_unsolvable`). -/
+theorem rbBlock_zero_freq (e : ColEnv α) (hz : ∀ x, e.isZero x = true ↔ x = 0)
+    (st : SuState) (uncReal : Bool)
+    (hmr : e.mNone = false → st.lay.rb ≠ [] → rbMassRows st uncReal = some st.lay.rb)
+    (hbr : e.unc = true → rbDampRows st uncReal = some st.lay.rb)
+    (hnd : st.lay.rb.Nodup) (F : Nat → α)
+    (hinc : e.inc = Incrb.all)
+    (hmn : e.mNone = true → ∀ r ∈ st.lay.rb, ∀ c ∈ st.lay.rb, e.M r c = if r = c then 1 else 0)
+    (hdiag : e.unc = true →
+      (∀ r ∈ st.lay.rb, ∀ c ∈ st.lay.rb, r ≠ c → e.M r c = 0 ∧ e.B r c = 0) ∧
+      (∀ r ∈ st.lay.rb, e.M r r ≠ 0))
+    (vrb : List (Dva α)) (h : rbVals e st uncReal F 0 = .ok vrb) :
+    vrb.length = st.lay.rb.length ∧ (∀ x ∈ vrb, x.d = 0 ∧ x.v = 0) ∧
+    ∀ r ∈ st.lay.rb, blockSum e.M st.lay.rb (vrb.map (·.a)) r = F r := by
+  unfold rbVals at h
+  have hwz : e.isZero (0 : α) = true := (hz 0).2 rfl
+  by_cases hemp : st.lay.rb = []
+  · simp only [hemp, List.isEmpty_nil, Bool.true_or, if_true, Except.ok.injEq] at h
+    subst h
+    simp [hemp]
+  · have hemp' : st.lay.rb.isEmpty = false := by
+      cases hrb : st.lay.rb with
+      | nil => exact absurd hrb hemp
+      | cons _ _ => rfl
+    simp only [hemp', hinc, Incrb.all, Bool.or_self, Bool.not_true, Bool.false_eq_true, if_false] at h
+    cases ha : rbAccD e st uncReal F 0 with
+    | error m => rw [ha] at h; cases h
+    | ok arb =>
+      rw [ha] at h
+      simp only [Except.map, Except.ok.injEq] at h
+      subst h
+      have hacc := rbAccD_solves e hz st uncReal hmr hbr hnd hemp F 0 hmn
+        (fun hu => ⟨(hdiag hu).1, (hdiag hu).2, fun h0 => absurd rfl h0⟩) arb ha
+      simp only [hwz, if_true, sub_zero] at hacc
+      refine ⟨by simp [hacc.1], ?_, ?_⟩
+      · intro x hx
+        obtain ⟨a, _, rfl⟩ := List.mem_map.1 hx
+        simp [frfRb, hwz]
+      · intro r hr
+        rw [List.map_map]
+        have : ((fun x : Dva α => x.a) ∘ fun a => frfRb e.isZero e.i a 0 ⟨true, true, true⟩) = id := by
+          funext a; simp [Function.comp, frfRb]
+        rw [this, List.map_id]
+        exact hacc.2 r hr
 
 /-- `_solve_freq_unc`, elastic block: `(K − Ω²M + iΩB)[el,el] d = F[el]`, `v = iΩd`, `a = −Ω²d`
 (`frfUnc_solves` for the whole block); `rows` are the rows of `b`, `k`, `m` addressed by `_el`. -/
